@@ -1,3 +1,5 @@
+use std::cell::Cell;
+
 use rlib_rand::Rng;
 
 pub trait TreapItem {
@@ -9,17 +11,25 @@ pub trait TreapItemSized {
     fn size(&self) -> usize;
 }
 
-static mut RNG: Rng = Rng::from_seed(42);
+thread_local! {
+    // one generator per thread: `TreapNode::new` is a safe function and nodes are `Send`,
+    // so a process-wide `static mut` was a data race as soon as two threads created nodes
+    static RNG: Cell<Rng> = Cell::new(Rng::from_seed(42));
+}
 
 type Priority = u32;
 
-#[allow(static_mut_refs)]
 fn gen_priority() -> Priority {
     #[cfg(feature = "verif")]
     if let Some(source) = crate::verif::priority_source() {
         return source();
     }
-    unsafe { RNG.next_raw() as Priority }
+    RNG.with(|cell| {
+        let mut rng = cell.get();
+        let priority = rng.next_raw() as Priority;
+        cell.set(rng);
+        priority
+    })
 }
 
 pub struct TreapNode<T> {
